@@ -77,7 +77,7 @@ def run_case(sc, idx, keys, env, plan=None, ext_sigint_after=None, timeout=40, c
         except OSError:
             pass
         r = common.Run(p.returncode, got, open(os.path.join(d, "stderr.txt"), "rb").read(), time.time() - t0, events, timed_out)
-    elif ext_sigint_after is None and not env.get("VERIF_STDERR"):
+    elif ext_sigint_after is None and not env.get("VERIF_STDERR") and not env.get("VERIF_SLOW_UNLINK_US"):
         r = common.run_s4(["--color", "never"] + argv, cwd=d, env=env, plan=plan, trace=True, tmpdir=tmp,
                           timeout=timeout)
     else:
@@ -88,7 +88,12 @@ def run_case(sc, idx, keys, env, plan=None, ext_sigint_after=None, timeout=40, c
         t0 = time.time()
         # (VERIF_STDERR: standard error is a device that cannot be written to -- /dev/full -- while the signal is handled)
         ferr_ = open(env["VERIF_STDERR"], "wb") if env.get("VERIF_STDERR") else subprocess.PIPE
-        p = subprocess.Popen([common.S4_BIN, "-t", "+00:00", "--color", "never"] + argv, cwd=d, env=e,
+        # (VERIF_SLOW_UNLINK_US: every unlink takes that long -- a slow device -- by way of strace's delay injection)
+        pre_ = []
+        if env.get("VERIF_SLOW_UNLINK_US"):
+            pre_ = ["strace", "-f", "-o", "/dev/null", "-e", "trace=unlink,unlinkat", "-e",
+                    "inject=unlink,unlinkat:delay_enter=%d" % int(env["VERIF_SLOW_UNLINK_US"])]
+        p = subprocess.Popen(pre_ + [common.S4_BIN, "-t", "+00:00", "--color", "never"] + argv, cwd=d, env=e,
                              stdout=subprocess.PIPE, stderr=ferr_)
         if ext_sigint_after is not None:
             time.sleep(ext_sigint_after)
@@ -293,6 +298,14 @@ def run(pid, tier, seed):
             jobs.append((keys, {"VERIF_STDERR": "/dev/full"}, None, None, "stderr-full:normal"))
             for trig in ("w0:SendDone:0", "main:Recv:2", "w0:TempRegister:0"):
                 jobs.append((keys, {"S4_VERIF_SIGINT": trig, "VERIF_STDERR": "/dev/full"}, None, None, "stderr-full:sigint:" + trig.split(":")[1]))
+        # (b'') the same on a device where removing a file takes a while (every unlink delayed): whoever removes the files, the
+        #       process does not end before they are gone
+        import shutil as _sh2
+        if _sh2.which("strace"):
+            for keys in combos[: (2 if tier == "quick" else len(combos))]:
+                jobs.append((keys, {"VERIF_SLOW_UNLINK_US": "120000"}, None, None, "slow-unlink:normal"))
+                for trig in ("w0:SendDone:0", "main:Recv:2", "w0:TempRegister:0", "main:Print:1"):
+                    jobs.append((keys, {"S4_VERIF_SIGINT": trig, "VERIF_SLOW_UNLINK_US": "120000"}, None, None, "slow-unlink:sigint:" + trig.split(":")[1]))
         # (c) orders taken from the model's counterexamples: signal while another worker has created its
         #     file but not yet registered it; signal before a late worker creates its file
         for keys in [c for c in combos if len(c) >= 2][: (2 if tier == "quick" else 5)] * (2 if tier == "quick" else 4):
@@ -391,7 +404,7 @@ def run(pid, tier, seed):
         for res in results:
             label = res["label"]
             distinct.add((tuple(res["keys"]), label, str(sorted(res["env"].items()))))
-            sigint = label.startswith("sigint") or label.startswith("plan") or label.startswith("stderr-full:sigint")
+            sigint = label.startswith("sigint") or label.startswith("plan") or label.startswith("stderr-full:sigint") or label.startswith("slow-unlink:sigint")
             rec = {"kind": "c18", "keys": res["keys"], "env": res["env"], "label": label,
                    "ext_sigint_after": res["ext_sigint_after"], "close_after": res.get("close_after"), "leftover": res["leftover"], "rc": res["rc"],
                    "stderr": res["stderr"], "trace": res["trace"][:300]}
